@@ -92,3 +92,10 @@ OBLIGATIONS += ns_fault_obligations('c05', 'C05', ['up-seek', 'up-stream', 'up-p
 
 from harness.coupload import OB_PROTO, protocol_fixed  # noqa: E402
 OBLIGATIONS += [dict(OB_PROTO, id='C05.4', cases=[('upload-seekable', 1, -1), ('upload-seekable', 4, -1)])]
+
+from harness.c07 import OBLIGATIONS as _C07OBS, cancel_run  # noqa: E402
+# "every cancellation point": future.cancel() landing inside any environment call of a multipart upload / copy; judged
+# at quiescence AND at the instant the done event is set (harness/common.DoneProbe)
+OBLIGATIONS += [dict(o, id='C05.point-' + o['id'].split('point-')[1],
+                     tier='thorough' if o['id'].endswith('up-stream') else 'quick')
+                for o in _C07OBS if o['id'] in ('C07.point-up-path', 'C07.point-copy', 'C07.point-up-stream')]
